@@ -114,8 +114,17 @@ func wodCheck(e *Context, addLine IntType, pool IntType, points IntType, thresho
 	return true
 }
 
+// rollBudget 在加骰类骰池的每一轮开始前被询问，参数为本轮将要投掷的骰子数；返回 false 表示算力已耗尽，投掷中止
+type rollBudget func(n IntType) bool
+
 // RollWoD 返回: 成功数，总骰数，轮数，细节
 func RollWoD(src *rand.PCGSource, addLine IntType, pool IntType, points IntType, threshold IntType, isGE bool, mode int) (IntType, IntType, IntType, string) {
+	a, b, c, d, _ := rollWoD(src, addLine, pool, points, threshold, isGE, mode, nil)
+	return a, b, c, d
+}
+
+// rollWoD 与 RollWoD 相同，但每一轮(含加骰轮)都先向 budget 申请本轮的骰数；最后一个返回值为 false 时表示被 budget 中止
+func rollWoD(src *rand.PCGSource, addLine IntType, pool IntType, points IntType, threshold IntType, isGE bool, mode int, budget rollBudget) (IntType, IntType, IntType, string, bool) {
 	var details []string
 	addTimes := 1
 
@@ -124,6 +133,9 @@ func RollWoD(src *rand.PCGSource, addLine IntType, pool IntType, points IntType,
 	successCount := IntType(0)
 
 	for times := 0; times < addTimes; times++ {
+		if budget != nil && !budget(pool) {
+			return successCount, allRollCount, IntType(addTimes), "", false
+		}
 		addCount := IntType(0)
 		var detailsOne []string
 
@@ -192,7 +204,7 @@ func RollWoD(src *rand.PCGSource, addLine IntType, pool IntType, points IntType,
 	detailText = fmt.Sprintf("成功%d/%d%s%s", successCount, allRollCount, roundsText, detailText)
 
 	// 成功数，总骰数，轮数，细节
-	return successCount, allRollCount, IntType(addTimes), detailText
+	return successCount, allRollCount, IntType(addTimes), detailText, true
 }
 
 func doubleCrossCheck(ctx *Context, addLine, pool, points IntType) bool {
@@ -215,6 +227,12 @@ func doubleCrossCheck(ctx *Context, addLine, pool, points IntType) bool {
 }
 
 func RollDoubleCross(src *rand.PCGSource, addLine IntType, pool IntType, points IntType, mode int) (IntType, IntType, IntType, string) {
+	a, b, c, d, _ := rollDoubleCross(src, addLine, pool, points, mode, nil)
+	return a, b, c, d
+}
+
+// rollDoubleCross 与 RollDoubleCross 相同，但每一轮都先向 budget 申请本轮的骰数
+func rollDoubleCross(src *rand.PCGSource, addLine IntType, pool IntType, points IntType, mode int, budget rollBudget) (IntType, IntType, IntType, string, bool) {
 	var details []string
 	addTimes := 1
 
@@ -223,6 +241,9 @@ func RollDoubleCross(src *rand.PCGSource, addLine IntType, pool IntType, points 
 	resultDice := IntType(0)
 
 	for times := 0; times < addTimes; times++ {
+		if budget != nil && !budget(pool) {
+			return resultDice, allRollCount, IntType(addTimes), "", false
+		}
 		addCount := IntType(0)
 		detailsOne := []string{}
 		maxDice := IntType(0)
@@ -290,7 +311,7 @@ func RollDoubleCross(src *rand.PCGSource, addLine IntType, pool IntType, points 
 	}
 
 	// 成功数，总骰数，轮数，细节
-	return resultDice, allRollCount, IntType(addTimes), lastDetail
+	return resultDice, allRollCount, IntType(addTimes), lastDetail, true
 }
 
 // RollCommon (times)d(dicePoints)kl(lowNum) 或 (times)d(dicePoints)kh(highNum)
